@@ -140,7 +140,34 @@ def effects_of(fn):
             if is_member:
                 args = ", ".join(opt_norm(gen.expr_text(a, 0, fn)) for a in n.get("args") or [])
                 out.append((opt_norm(gen.expr_text(o, 0, fn)), "." + n["callee"]["name"], args[:160], guard_of(fn, n, par)))
+    # calls that update a variable of the caller through a non-const reference parameter (advance_offset(current_offset, ...))
+    byk = _fn_by_key()
+    for n in walk(fn["body"]):
+        if n.get("k") not in ("CallExpr", "CXXMemberCallExpr"):
+            continue
+        c = n.get("callee") or {}
+        tgt = byk.get(c.get("key"))
+        if tgt is None:
+            continue
+        ps = tgt.get("params") or []
+        outp = [i for i, p_ in enumerate(ps) if (p_.get("t") or "").rstrip().endswith("&") and not (p_.get("t") or "").startswith("const ")]
+        args = n.get("args") or []
+        if not outp or any(i >= len(args) for i in outp):
+            continue
+        out.append((opt_norm(gen.expr_text(args[outp[0]], 0, fn)), ".via " + c.get("name", "?"),
+                    ", ".join(opt_norm(gen.expr_text(a, 0, fn)) for j, a in enumerate(args) if j not in outp)[:160], guard_of(fn, n, par)))
     return sorted(set((a, b, c, tuple(d)) for a, b, c, d in out))
+
+
+_FBK = {}
+
+
+def _fn_by_key():
+    f = gen.facts()
+    k = id(f)
+    if k not in _FBK:
+        _FBK[k] = {fn["key"]: fn for fn in gen.sbeppc_functions(f) if fn.get("key") and fn["file"].endswith(RETURN_FILES)}
+    return _FBK[k]
 
 
 RETURN_FILES = ("sbe_schema_validator.hpp", "sbe_schema_cpp_validator.hpp")
